@@ -6,7 +6,7 @@ RULE = ("every fixture / corpus / generated program is linted by the real Checke
         "functions / values / parameters and a global_usage ignore pattern (plus a prologue of layout-sensitive shapes: type(x == 's'), bare "
         "deprecated names, deprecated nil parameters, _G fields, nan comparisons) and once under the roblox base library (Color3.new / "
         "UDim2.new prologue); diagnostics are compared in token space (code, primary range, severity, message, secondary labels, notes modulo "
-        "whitespace); the Roblox constructor lints and manual_table_clone are also run against their Lean models on programs built around their shapes; "
+        "whitespace); the Roblox constructor lints, manual_table_clone and roblox_incorrect_roact_usage are also run against their Lean models on programs built around their shapes; "
         "non-trivial = the pair has at least one diagnostic")
 
 
@@ -23,13 +23,17 @@ def body(ctx):
     # shape it looks for, with and without `table.clone` in the library
     outdir, meta = ctx.harness("clone", 100 if ctx.tier == "quick" else 1500)
     ctx.correspond(outdir, nontrivial_tag=lambda t: "reported" in t or "comment-before-loop" in t)
+    # roblox_incorrect_roact_usage against its model (Selene/Lints/Roact.lean, the last lint of `allDiags`): createElement calls
+    # through both libraries and through locals, known / unknown classes, properties, events, `Name` values in every spelling
+    outdir, meta = ctx.harness("roact", 150 if ctx.tier == "quick" else 3000)
+    ctx.correspond(outdir, nontrivial_tag=lambda t: "reported" in t)
     ctx.notes.append(f"twins discarded because the rewrite changed the token sequence: {ctx.stats.get('twin_changed_the_token_sequence', 0)}; twins that did not parse: {ctx.stats.get('twin_does_not_parse', 0)}")
 
 
 def check(ctx):
     ctx.assumptions = [
         "the documented exceptions are not exercised: `comments_count` of empty_if / empty_loop keeps its default (false), programs containing filter comments are skipped, inserted comments are never filters (one in six merely looks like one: `--- selene: allow(…)` with an extra dash, an ordinary comment)",
-        "layout-independence of the one unmodelled lint (roblox_incorrect_roact_usage) rests on the twin runs only; for the modelled lints the Lean theorem states it and the correspondence of C01-C06 ties the model to the code",
+        "every lint is modelled; the Lean theorem states layout-independence of the models, and the correspondence streams (C01-C07 and the roblox / clone / roact streams here) tie each model to the code",
         "line-sensitive lints (multiple_statements) are covered because rewrites never join or split lines",
     ]
     return vlib.standard_check(ctx, ["Selene.Props.C13"], body,
